@@ -551,13 +551,23 @@ def r19_7(ctx: Ctx) -> None:
     # the core lies inside the area, which crosses the origin (a_e < a_s); the core itself does not cross
     pre = parse("0 <= a_e and a_e < a_s and a_s < L and 0 <= c_s and c_s < c_e and c_e <= L and "
                 "((c_s >= a_s) or (c_e <= a_e))")
-    right = [n for n in walk_local(func) if isinstance(n, (ast.AugAssign, ast.Assign))
-             and txt(n.targets[0] if isinstance(n, ast.Assign) else n.target).endswith(".neighbouring_end")
-             and (f"{feat}.core_start > {feat}.core_end", False) in {(txt(e), t) for e, t in path_facts(cfg, n)}
-             and not any(isinstance(m, (ast.AugAssign, ast.Assign)) and txt(m.targets[0] if isinstance(m, ast.Assign) else m.target).endswith(".start")
-                         and {(txt(e), t) for e, t in path_facts(cfg, m)} == {(txt(e), t) for e, t in path_facts(cfg, n)}
-                         and "extra" not in txt(m.targets[0] if isinstance(m, ast.Assign) else m.target)
-                         for m in walk_local(func))]
+    def target_of(n):
+        return txt(n.targets[0] if isinstance(n, ast.Assign) else n.target)
+
+    def resolved(n):
+        return {(txt(inline_reaching(cfg, e, e, keep={feat})), t) for e, t in path_facts(cfg, n)}
+
+    def core_within(n) -> bool:  # on a path where the core does not cross the origin
+        for text, t in resolved(n):
+            if text in (f"{feat}.core_start > {feat}.core_end", f"{feat}.core_end < {feat}.core_start") and not t:
+                return True
+            if text in (f"{feat}.core_start <= {feat}.core_end", f"{feat}.core_end >= {feat}.core_start") and t:
+                return True
+        return False
+    writes = [n for n in walk_local(func) if isinstance(n, (ast.AugAssign, ast.Assign)) and "extra" not in target_of(n)]
+    right = [n for n in writes if target_of(n).endswith(".neighbouring_end") and core_within(n)
+             and not any(target_of(m).endswith(".start") and not target_of(m).endswith("neighbouring_start") and resolved(m) == resolved(n)
+                         for m in writes)]
     if not right:
         ctx.cannot("R19.7", AP, func, qual, "side of the core", "the branch for 'only the right neighbourhood crosses' was not found")
         return
@@ -569,9 +579,16 @@ def r19_7(ctx: Ctx) -> None:
             return super().generic_visit(node)
     from ..astutil import clone
     node = right[0]
-    conds = [e if t else ast.UnaryOp(op=ast.Not(), operand=e) for e, t in path_facts(cfg, node)
-             if "region_crosses_origin" not in txt(e) and "hasattr" not in txt(e) and txt(e) != f"{feat}.core_start > {feat}.core_end"
-             and "crosses_origin()" not in txt(e)]
+    conds = []
+    for e, t in path_facts(cfg, node):
+        full = inline_reaching(cfg, e, e, keep={feat})
+        text = txt(full)
+        if "region_crosses_origin" in text or "hasattr" in text or "crosses_origin()" in text:
+            continue
+        if text in (f"{feat}.core_start > {feat}.core_end", f"{feat}.core_end < {feat}.core_start",
+                    f"{feat}.core_start <= {feat}.core_end", f"{feat}.core_end >= {feat}.core_start"):
+            continue
+        conds.append(full if t else ast.UnaryOp(op=ast.Not(), operand=full))
     if not conds:
         ctx.cannot("R19.7", AP, node, qual, "side of the core", "no test decides the branch")
         return
